@@ -75,6 +75,18 @@ def check(report: Report, repo: Repo) -> None:
                 okm = len(news) == 1 and TM.term_of(news[0]["bound"].get("fwd_tensor")) == t.term and isinstance(aux.get("metrics"), Obj)
                 report.add("R1-identity", f"{cons}.forward::metrics", okm, "forward metrics are computed from the forward argument and stored under node_meta['metrics']", fmt([e['bound'] for e in news]), "Metrics(fwd_tensor=t)")
                 report.add("R1-identity", f"{cons}.forward::ctx", ctx.attrs.get("node_meta") is aux, "the same meta dict is kept for the backward pass", fmt(ctx.attrs.get("node_meta")), "node_meta", nontrivial=False)
+            if extra == "node_meta":
+                # a second forward through the same node (module called again) starts from a clean
+                # record: no backward metrics may be carried over from the previous call
+                stale = Obj("Metrics", attrs={"fwd": O("old_fwd"), "bwd": O("old_bwd_from_previous_call")}, cls=it.get_global(TS, "Metrics"), term=T("param", ("previous_metrics",)))
+                meta2 = {"metrics": stale}
+                it.events = []
+                it.call_function(it.class_attr(cls, "forward"), [Obj("ctx", term=T("param", ("ctx2",))), P("t2", None), meta2], {})
+                cur = meta2.get("metrics")
+                news2 = [e for e in it.events if e.kind == "new" and e["cls"].qualname == "Metrics"]
+                fresh = isinstance(cur, Obj) and cur is not stale and len(news2) == 1
+                reset = isinstance(cur, Obj) and cur is stale and cur.attrs.get("bwd", 0) is None
+                report.add("R1-identity", f"{cons}.forward::fresh-record", fresh or reset, "each forward pass records into a fresh Metrics (bwd = None) so a call without backward reports no backward metrics", "stale bwd kept" if not (fresh or reset) else "fresh", "new Metrics(fwd_tensor=t)")
             g = P("grad", None)
             if extra == "node_meta":
                 mobj = Obj("Metrics", term=T("param", ("metrics",)))
